@@ -1,9 +1,9 @@
 SPECIFICATION GSpec
 CONSTANTS
-  File <- FilesA
-  FDataSeq <- DataA
-  FOther <- OtherA
-  FSplit <- SplitA
+  File <- FilesH
+  FDataSeq <- DataH
+  FOther <- OtherH
+  FSplit <- SplitH
   Caps <- GenCaps
 VIEW FocusView
 INVARIANT EmitAll
